@@ -1093,6 +1093,121 @@ Section Countdown.
   Qed.
 End Countdown.
 
+(* ================================================================== declared parameter names *)
+(* ---------------- scoping of declared parameter names *)
+Lemma lookup_combine_nth : forall (names : list string) (args : list value) i x v,
+  NoDup names -> nth_error names i = Some x -> nth_error args i = Some v ->
+  lookup x (combine names args) = Some v.
+Proof.
+  induction names as [|y names IH]; intros args i x v Hnd Hn Ha.
+  - destruct i; discriminate.
+  - destruct args as [|a args]; [destruct i; discriminate|].
+    destruct i as [|i]; cbn in *.
+    + injection Hn as ->. injection Ha as ->. rewrite String.eqb_refl. reflexivity.
+    + inversion Hnd as [|? ? Hnin Hnd']; subst.
+      destruct (String.eqb x y) eqn:E.
+      * apply String.eqb_eq in E. subst. exfalso. apply Hnin. eapply nth_error_In. exact Hn.
+      * eapply IH; eassumption.
+Qed.
+
+Section Scoping.
+  Context (q : quirks) (P : prog).
+  (* a pattern variable wins over a declared parameter of the same name *)
+  Lemma pattern_var_shadows_param f d syms e x v : lookup x e = Some v ->
+    eval q P (S f) d syms e (EVar x) = ROk v.
+  Proof. intros H. rewrite eval_var. unfold lookup2. rewrite H. reflexivity. Qed.
+  (* a name the pattern did not bind denotes the argument at the parameter's position *)
+  Lemma param_name_denotes_arg f d names args e i x v : lookup x e = None ->
+    NoDup names -> nth_error names i = Some x -> nth_error args i = Some v ->
+    eval q P (S f) d (combine names args) e (EVar x) = ROk v.
+  Proof.
+    intros He Hnd Hn Ha. rewrite eval_var. unfold lookup2. rewrite He.
+    rewrite (lookup_combine_nth names args i x v Hnd Hn Ha). reflexivity.
+  Qed.
+End Scoping.
+
+(* ---------------- an accumulator loop that reads its parameters BY NAME *)
+Definition sumacc_def (k : string) : fdef :=
+  {| fname := "sumacc"; fparams := [("n", KInt k); ("acc", KInt k)]; fout := KInt k;
+     farms := [(PTuple [PLit (VInt k 0); PWild], None, EVar "acc");
+               (PTuple [PVar "k"; PWild], None,
+                ECall "sumacc" [EBin Sub (EVar "k") (num k 1); EBin Add (EVar "acc") (EVar "k")])] |}.
+Definition sumname_def (k : string) : fdef :=
+  {| fname := "sumname"; fparams := [("n", KInt k); ("acc", KInt k)]; fout := KInt k;
+     farms := [(PTuple [PLit (VInt k 0); PWild], None, EVar "acc");
+               (PTuple [PWild; PWild], None,
+                ECall "sumname" [EBin Sub (EVar "n") (num k 1); EBin Add (EVar "acc") (EVar "n")])] |}.
+
+Definition tri (n : nat) : Z := (Z.of_nat n * (Z.of_nat n + 1) / 2)%Z.
+Lemma tri_S n : tri (S n) = (tri n + Z.of_nat (S n))%Z.
+Proof.
+  unfold tri. replace (Z.of_nat (S n) * (Z.of_nat (S n) + 1))%Z with (Z.of_nat n * (Z.of_nat n + 1) + Z.of_nat (S n) * 2)%Z by lia.
+  rewrite Z.div_add by lia. reflexivity.
+Qed.
+Lemma tri_nonneg n : (0 <= tri n)%Z.
+Proof. unfold tri. apply Z.div_pos; lia. Qed.
+
+Section SumAcc.
+  Context (q : quirks) (P : prog) (k : string) (lo hi : Z).
+  Hypothesis Hk : kind_range k = Some (lo, hi).
+  Hypothesis Hlo : (lo <= 0)%Z.
+  Local Opaque eval tail_loop call_fn Z.of_nat Z.eqb Z.leb Z.ltb Z.add Z.sub Z.mul Z.quot Z.rem tri.
+  Ltac ev_step := first [ rewrite eval_val | rewrite eval_var | rewrite eval_bin | rewrite eval_call | rewrite tail_loop_S ].
+  Ltac ev := repeat (ev_step; cbn; rewrite ?String.eqb_refl; cbn).
+
+  Lemma sumacc_loop : forall m acc f n d, 2 <= f -> m + 1 <= n -> (0 <= acc)%Z -> (acc + tri m <= hi)%Z ->
+    tail_loop q P (eval q P f) n d (sumacc_def k) [VInt k (Z.of_nat m); VInt k acc] = ROk (VInt k (acc + tri m)).
+  Proof.
+    induction m as [|m IH]; intros acc f n d Hf Hn Hacc Hfit.
+    - destruct n as [|n]; [lia|]. destruct f as [|f]; [lia|]. change (Z.of_nat 0) with 0%Z.
+      ev. rewrite Z.eqb_refl. cbn. ev. unfold coerce. cbn. rewrite String.eqb_refl.
+      Local Transparent tri. unfold tri. Local Opaque tri. change (Z.of_nat 0) with 0%Z. f_equal. f_equal.
+      Local Transparent Z.add Z.mul. cbn. Local Opaque Z.add Z.mul. lia.
+    - destruct n as [|n]; [lia|]. destruct f as [|[|f]]; try lia.
+      pose proof (tri_nonneg m) as Ht. rewrite tri_S in Hfit.
+      ev. replace (0 =? Z.of_nat (S m))%Z with false by (symmetry; apply Z.eqb_neq; lia). cbn.
+      ev. rewrite !(arith_ok k lo hi) by (exact Hk || lia). cbn.
+      replace (Z.of_nat (S m) - 1)%Z with (Z.of_nat m) by lia.
+      rewrite IH; [|lia|lia|lia|lia]. rewrite tri_S. f_equal. f_equal. lia.
+  Qed.
+
+  Lemma sumname_loop : forall m acc f n d, 2 <= f -> m + 1 <= n -> (0 <= acc)%Z -> (acc + tri m <= hi)%Z ->
+    tail_loop q P (eval q P f) n d (sumname_def k) [VInt k (Z.of_nat m); VInt k acc] = ROk (VInt k (acc + tri m)).
+  Proof.
+    induction m as [|m IH]; intros acc f n d Hf Hn Hacc Hfit.
+    - destruct n as [|n]; [lia|]. destruct f as [|f]; [lia|]. change (Z.of_nat 0) with 0%Z.
+      ev. rewrite Z.eqb_refl. cbn. ev. unfold coerce. cbn. rewrite String.eqb_refl.
+      Local Transparent tri. unfold tri. Local Opaque tri. change (Z.of_nat 0) with 0%Z. f_equal. f_equal.
+      Local Transparent Z.add Z.mul. cbn. Local Opaque Z.add Z.mul. lia.
+    - destruct n as [|n]; [lia|]. destruct f as [|[|f]]; try lia.
+      pose proof (tri_nonneg m) as Ht. rewrite tri_S in Hfit.
+      ev. replace (0 =? Z.of_nat (S m))%Z with false by (symmetry; apply Z.eqb_neq; lia). cbn.
+      ev. rewrite !(arith_ok k lo hi) by (exact Hk || lia). cbn.
+      replace (Z.of_nat (S m) - 1)%Z with (Z.of_nat m) by lia.
+      rewrite IH; [|lia|lia|lia|lia]. rewrite tri_S. f_equal. f_equal. lia.
+  Qed.
+
+  (* sumacc(n, acc) = acc + n(n+1)/2 for EVERY n, at one activation of stack: in each of the n+1
+     iterations of the loop `acc` (and, in sumname, `n`) is read by its declared NAME and denotes
+     the argument of THAT iteration *)
+  Theorem sumacc_correct : find_fn (pdefs P) "sumacc" = Some (sumacc_def k) ->
+    forall n acc f d syms e, n + 4 <= f -> 1 <= d -> (0 <= acc)%Z -> (acc + tri n <= hi)%Z ->
+    eval q P f d syms e (ECall "sumacc" [num k (Z.of_nat n); num k acc]) = ROk (VInt k (acc + tri n)).
+  Proof.
+    intros HP n acc f d syms e Hf Hd Hacc Hfit. destruct f as [|[|f]]; try lia. destruct d as [|d]; [lia|].
+    ev. rewrite HP. cbn. ev. rewrite call_fn_unfold. cbn.
+    apply sumacc_loop; try assumption; lia.
+  Qed.
+  Theorem sumname_correct : find_fn (pdefs P) "sumname" = Some (sumname_def k) ->
+    forall n acc f d syms e, n + 4 <= f -> 1 <= d -> (0 <= acc)%Z -> (acc + tri n <= hi)%Z ->
+    eval q P f d syms e (ECall "sumname" [num k (Z.of_nat n); num k acc]) = ROk (VInt k (acc + tri n)).
+  Proof.
+    intros HP n acc f d syms e Hf Hd Hacc Hfit. destruct f as [|[|f]]; try lia. destruct d as [|d]; [lia|].
+    ev. rewrite HP. cbn. ev. rewrite call_fn_unfold. cbn.
+    apply sumname_loop; try assumption; lia.
+  Qed.
+End SumAcc.
+
 (* ================================================================== the judge *)
 (* what an `ok` verdict transports to the implementation: its observation on this case is exactly
    what the SPECIFICATION evaluator (every quirk off: first matching arm with a true guard, nothing
@@ -1374,6 +1489,13 @@ Lemma gen_gcd : prog_of "(c16 (enum) (defs (fn gcd ((a (int u64)) (b (int u64)))
 Proof. vm_compute. reflexivity. Qed.
 Lemma gen_countdown : prog_of "(c16 (enum) (defs (fn countdown ((n (int u64))) (int u64) (arm (v n) - (call cdacc (var n) (val (i u64 0))))) (fn cdacc ((n (int u64)) (acc (int u64))) (int u64) (arm (t (l (i u64 0)) (v acc)) - (var acc)) (arm (t (v n) (v acc)) - (call cdacc (op sub (var n) (val (i u64 1))) (op add (var acc) (val (i u64 1))))))) (globals) (main (call countdown (val (i u64 1000)))) (fuel 1400))"
   = Some {| penum := []; pdefs := [countdown_def "u64"; cdacc_def "u64"] |}.
+Proof. vm_compute. reflexivity. Qed.
+
+Lemma gen_sumacc : prog_of "(c16 (enum) (defs (fn sumacc ((n (int u64)) (acc (int u64))) (int u64) (arm (t (l (i u64 0)) _) - (var acc)) (arm (t (v k) _) - (call sumacc (op sub (var k) (val (i u64 1))) (op add (var acc) (var k)))))) (globals) (main (call sumacc (val (i u64 10)) (val (i u64 0)))) (fuel 110))"
+  = Some {| penum := []; pdefs := [sumacc_def "u64"] |}.
+Proof. vm_compute. reflexivity. Qed.
+Lemma gen_sumname : prog_of "(c16 (enum) (defs (fn sumname ((n (int u64)) (acc (int u64))) (int u64) (arm (t (l (i u64 0)) _) - (var acc)) (arm (t _ _) - (call sumname (op sub (var n) (val (i u64 1))) (op add (var acc) (var n)))))) (globals) (main (call sumname (val (i u64 10)) (val (i u64 0)))) (fuel 110))"
+  = Some {| penum := []; pdefs := [sumname_def "u64"] |}.
 Proof. vm_compute. reflexivity. Qed.
 
 (* the judge on whole lines *)
